@@ -825,3 +825,17 @@ v("d42-numpy-scalar-kept", "C12", ER,
   "        if canonical_type is not type(value):\n            # store numpy scalars as the equivalent Python scalar, so the printed constant can be read back\n            value = canonical_type(value)\n", "")
 v("d42-twin-inline-conversion", "C12", ER,
   "            value = canonical_type(value)\n", "            value = data_algebra.util.map_type_to_canonical(type(value))(value)\n", expect="silent")
+
+v("d43-sqlnode-copy-on-tuple", "C07", VR,
+  "            column_names=self.column_names,\n            view_name=self.view_name,", "            column_names=self.column_names.copy(),\n            view_name=self.view_name,")
+v("d43-sources-append", "C07", VR,
+  "        new_sources = [s.replace_leaves(replacement_map) for s in self.sources]\n        return new_sources[0].drop_columns(column_deletions=self.column_deletions)",
+  "        self.sources.sort()\n        new_sources = [s.replace_leaves(replacement_map) for s in self.sources]\n        return new_sources[0].drop_columns(column_deletions=self.column_deletions)")
+v("d43-twin-tuple-api", "C07", VR,
+  "            column_names=self.column_names,\n            view_name=self.view_name,", "            column_names=self.column_names[:],\n            view_name=self.view_name,", expect="silent")
+v("d44-leaf-copy-drops-head", "C07", VR, "            head=self.head,\n            limit_was=self.limit_was,\n", "            limit_was=self.limit_was,\n")
+v("d44-leaf-copy-names-unnamed-table", "C07", VR,
+  "            table_name=self.table_name if self.table_name_was_set_by_user else None,\n", "            table_name=self.table_name,\n")
+
+v("c06-s6-twin-elimination-removed-from-extend", "C06", VR,
+  "        if self.is_trivial_when_intermediate_():\n            return self.sources[0].extend_parsed_(", "        if False:\n            return self.sources[0].extend_parsed_(", expect="silent")
